@@ -25,7 +25,7 @@ ASSUMPTIONS = [
     "library calls in the frozen no-raise table of sa/effects.py do not raise (logging, loop.time/create_task, set/deque ops, StreamWriter.write/close/is_closing)",
     "asyncio.open_connection / drain / wait_closed raise only OSError family; CancelledError is outside the lattice",
 ]
-FLOORS = {"C07.R1": 5, "C07.R2": 7, "C07.R3": 3, "C07.R4": 5, "C07.R5": 2, "C07.R6": 3, "C07.R7": 3, "C07.R8": 3, "C07.R9": 4, "C07.R10": 1}
+FLOORS = {"C07.R1": 5, "C07.R2": 7, "C07.R3": 3, "C07.R4": 5, "C07.R5": 2, "C07.R6": 3, "C07.R7": 3, "C07.R8": 3, "C07.R9": 4, "C07.R10": 1, "C07.R11": 5}
 
 
 def run(ctx):
@@ -38,6 +38,7 @@ def run(ctx):
     r7(ctx)
     r8(ctx)
     r9(ctx)
+    r11(ctx)
     from . import c01
     from .common import reuse
 
@@ -547,3 +548,101 @@ def r9(ctx, rule="C07.R9"):
         else:
             ctx.check(True, R, f"coherence:{k}", m, None, exp[k], "")
     ctx.check(an.points >= 10, R, "coherence:suspension-points-analysed", m, None, "every await and exit of every socket method was evaluated", f"{an.points} points")
+
+
+# ------------------------------------------------------------------------------------------ R11
+def r11(ctx, R="C07.R11"):
+    """The scheduling primitive itself: _schedule(coro, delay) starts a task that runs exactly `coro` (after exactly `delay`
+    seconds when a delay is given), and keeps the task in _background_tasks until it is done - every reconnect, retry and
+    read loop goes through it, and close() can only cancel what is tracked there."""
+    sc = sock_fn(ctx, "_schedule")
+    m, g = sc.module, sc.cfg
+    params = sc.params[1:]
+    ctx.require(len(params) >= 1, "socket._schedule: no coroutine parameter")
+    pc = params[0]
+    pd = params[1] if len(params) > 1 else None
+    creates = sc.calls_pred(lambda d: d.endswith("create_task") or d.endswith("ensure_future"))
+    ok = len(creates) == 1 and g.all_paths_pass(g.entry.id, [g.exit.id], [creates[0][0].id], NONEXC)
+    ctx.check(ok, R, "_schedule:creates-one-task", m, sc.node, "every call creates exactly one task", f"{len(creates)} create_task calls" if len(creates) != 1 else "a path creates no task")
+    if len(creates) != 1:
+        return
+    cn, cc = creates[0]
+    arg = cc.args[0] if cc.args else None
+    # what the task runs, per guarded path through the body (locals substituted): the coroutine parameter itself, or
+    # _delay(<that coroutine>, <the delay parameter>) exactly on the paths where the delay is truthy
+    from ..q import block_paths, subst_env
+    from ..minieval import Mini, Unsupported
+
+    body = [st for st in sc.node.body if not (isinstance(st, ast.Expr) and isinstance(st.value, ast.Constant))]
+    idx = next((k for k, st in enumerate(body) if any(x is cc for x in ast.walk(st))), None)
+    ctx.require(idx is not None and arg is not None, "socket._schedule: create_task is not a top-level statement of the body")
+    shapes, rows = [], []
+    ok_delay = True
+    for lits, env, end in block_paths(body[:idx]):
+        if end != "fall":
+            continue
+        e = subst_env(arg, env)
+        alts = [(e, None)]
+        if isinstance(e, ast.IfExp):
+            alts = [(e.body, (e.test, True)), (e.orelse, (e.test, False))]
+        for val, extra in alts:
+            kind = "other:" + norm_text(val)[:60]
+            if isinstance(val, ast.Name) and val.id == pc:
+                kind = "param"
+            elif isinstance(val, ast.Call):
+                q_ = (ctx.repo.qual(m, val.func) or dotted(val.func) or "").split(".")[-1]
+                fn_delay = m.functions.get(q_)
+                if fn_delay is not None and isinstance(fn_delay, ast.AsyncFunctionDef):
+                    names = [a.arg for a in fn_delay.args.args]
+                    bound = {names[k]: a for k, a in enumerate(val.args) if k < len(names)}
+                    bound.update({k.arg: k.value for k in val.keywords if k.arg})
+                    # by role: which parameter receives the coroutine, which the delay (whatever their order)
+                    p_coro = next((k for k, v in bound.items() if isinstance(v, ast.Name) and v.id == pc), None)
+                    p_del = next((k for k, v in bound.items() if isinstance(v, ast.Name) and v.id == pd), None)
+                    if len(names) == 2 and p_coro is not None and p_del is not None and p_coro != p_del:
+                        kind = "delayed"
+                        _check_delay(ctx, R, m, fn_delay, [p_coro, p_del])
+            shapes.append(kind)
+            # under which delays is this path taken?  evaluate the path condition for the delays the package uses
+            if pd is not None and kind in ("param", "delayed"):
+                conds = [(ast.parse(t, mode="eval").body, pol) for t, pol in lits] + ([extra] if extra else [])
+                for dv in (None, 0, 0.0, 0.5, 2.0, 30.0):
+                    try:
+                        taken = all(bool(Mini(ctx.repo, m, {}).ev(c_, {pd: dv})) == pol for c_, pol in conds)
+                    except Unsupported as ex:
+                        raise AnalysisError(f"{m.relpath}: _schedule: path condition outside the evaluable fragment: {ex}")
+                    if taken:
+                        rows.append((dv, kind))
+                        if (kind == "delayed") != bool(dv):
+                            ok_delay = False
+    ok = bool(shapes) and set(shapes) <= {"param", "delayed"} and "param" in shapes
+    ctx.check(ok, R, "_schedule:runs-the-given-coroutine", m, cc, "the task runs the coroutine passed in, wrapped in _delay(coro, delay) only when a delay was given", ", ".join(sorted(set(shapes))) or "no path reaches create_task")
+    if pd is not None and "delayed" in shapes:
+        seen = {repr(dv) for dv, _ in rows}
+        ctx.check(ok_delay and len(seen) == 6, R, "_schedule:delay-only-when-given", m, sc.node, "the task is delayed exactly when a non-zero delay is given (None / 0 -> at once; 0.5, 2.0, 30.0 -> delayed)", ", ".join(f"delay={dv!r}: {'delayed' if k == 'delayed' else 'immediate'}" for dv, k in rows))
+    # tracked: the created task is added to _background_tasks on every path, and removed by a done callback
+    tv = cn.ast.targets[0].id if isinstance(cn.ast, ast.Assign) and isinstance(cn.ast.targets[0], ast.Name) else None
+    adds = [n for n, c in sc.calls("self._background_tasks.add") if c.args and isinstance(c.args[0], ast.Name) and c.args[0].id == tv]
+    ok = tv is not None and bool(adds) and g.all_paths_pass(cn.id, [g.exit.id], [a.id for a in adds], NONEXC)
+    ctx.check(ok, R, "_schedule:task-is-tracked", m, sc.node, "the new task is added to self._background_tasks (close() cancels what is tracked there; an untracked task may also be garbage-collected while pending)", "the task is not added on every path")
+    cbs = [c for n, c in sc.calls_pred(lambda d: d.endswith("add_done_callback"))]
+    where = [sc.node]
+    for c in cbs:
+        a0 = c.args[0] if c.args else None
+        if isinstance(a0, ast.Attribute) and isinstance(a0.value, ast.Name) and a0.value.id == "self" and sc.cls is not None and a0.attr in sc.cls.methods:
+            where.append(sc.cls.methods[a0.attr])  # the callback is a method of the class
+        elif isinstance(a0, ast.Name) and a0.id in m.functions:
+            where.append(m.functions[a0.id])
+    disc = any(isinstance(x, ast.Call) and (dotted(x.func) or "").endswith("_background_tasks.discard") for w_ in where for x in ast.walk(w_))
+    ctx.check(bool(cbs) and disc, R, "_schedule:task-is-released", m, sc.node, "a done callback discards the finished task from _background_tasks", "no done callback / no discard")
+
+
+def _check_delay(ctx, R, m, fn, names):
+    f = Fn(ctx.repo, m, fn.name)
+    g = f.cfg
+    sleeps = [(n, c) for n, c in f.calls("asyncio.sleep") if n.awaits]
+    ok = len(sleeps) == 1 and len(sleeps[0][1].args) == 1 and isinstance(sleeps[0][1].args[0], ast.Name) and sleeps[0][1].args[0].id == names[1] and not sleeps[0][1].keywords
+    ctx.check(ok, R, "_delay:sleeps-for-the-delay", m, fn, f"awaits asyncio.sleep({names[1]}) once, with the delay as given", norm_text(sleeps[0][1]) if sleeps else "no sleep")
+    runs = [n for n in g.nodes if n.awaits and any(isinstance(x, ast.Await) and isinstance(x.value, ast.Name) and x.value.id == names[0] for x in ast.walk(n.ast))]
+    ok = bool(runs) and bool(sleeps) and g.all_paths_pass(g.entry.id, [g.exit.id], [r.id for r in runs], NONEXC) and all(g.dominates(sleeps[0][0].id, r.id) for r in runs)
+    ctx.check(ok, R, "_delay:then-runs-the-coroutine", m, fn, f"after the sleep the wrapped coroutine `{names[0]}` is awaited on every path", "the coroutine is not awaited on every path after the sleep")
